@@ -846,7 +846,46 @@ type c17Emb struct {
 	Name string
 }
 
+// two levels of embedding, the middle struct declaring a field of the same name as the innermost: Go's rule (the
+// shallowest wins) is what Lookup, the merged environment and a copy all follow
+type C17Inner struct {
+	Title string
+	Only  string
+}
+type C17Mid struct {
+	C17Inner
+	Title string
+}
+type C17Page struct {
+	C17Mid
+	Body string
+}
+type C17PageP struct {
+	*C17Mid
+	Body string
+}
+
+func c17Promoted(r *Run) {
+	mid := C17Mid{C17Inner: C17Inner{Title: "inner-title", Only: "inner-only"}, Title: "mid-title"}
+	for name, root := range map[string]any{"by-value": C17Page{C17Mid: mid, Body: "b"}, "by-pointer": C17PageP{C17Mid: &mid, Body: "b"}, "pointer-to-root": &C17Page{C17Mid: mid, Body: "b"}} {
+		st := vuego.NewStackWithData(map[string]any{"x": 1}, root)
+		st.Push(map[string]any{"y": 2})
+		for field, want := range map[string]string{"Title": "mid-title", "Only": "inner-only", "Body": "b"} {
+			lv, lok := st.Lookup(field)
+			ev, eok := st.EnvMap()[field]
+			cv, cok := st.Copy().Lookup(field)
+			r.Eval("promoted:"+name+":"+field, true, nil)
+			r.Count("stream:promoted-fields(oracle only)")
+			if !lok || !eok || !cok || fmt.Sprint(lv) != want || fmt.Sprint(ev) != want || fmt.Sprint(cv) != want {
+				r.Fail("a promoted field of the root struct is not the same value for Lookup, the merged environment and a copy", map[string]string{"oracle": "promoted-fields", "root": name, "field": field},
+					map[string]any{"root": name, "field": field, "go": want, "lookup": fmt.Sprintf("(%v, %v)", lv, lok), "envmap": fmt.Sprintf("(%v, %v)", ev, eok), "copy_lookup": fmt.Sprintf("(%v, %v)", cv, cok)})
+			}
+		}
+	}
+}
+
 func c17GoIndexing(r *Run) {
+	c17Promoted(r)
 	leaf := &c17Doc{Name: "leaf", Tags: []string{"x"}}
 	doc := c17Doc{c17Base: c17Base{ID: 7, Title: "t"}, Exported: c17Base{ID: 8, Title: "u"}, Name: "the-name", Label: "the-label", Name2: "second",
 		Tags: []string{"a", "b", "c"}, Meta: map[string]any{"k": 1, "nested": map[string]any{"deep": []any{"d0", "d1"}}, "nilv": nil},
